@@ -544,3 +544,13 @@ def replay(ctx, rp):
     if isinstance(case, str):
         ctx.note("replayed tree: " + case)
     check(ctx)
+
+
+def search(ctx):
+    """Props no longer build (e.g. the dumped operator table changed): the driver does not depend on
+    Gen/Props, so the failing-input search = the ordinary check with the Spec oracle."""
+    ok, _log = ctx.lake_build(["Drivers.C38"])
+    if ok:
+        check(ctx)
+    else:
+        ctx.note("driver does not build either: no failing-input search possible")
